@@ -5,7 +5,7 @@ import wsproto, wsproto.events as WE, wsproto.extensions
 from wsproto import ConnectionType, ConnectionState as WSState
 from wsproto.frame_protocol import Opcode
 
-from common.check import PropertyCheck, hx, unhx
+from common.check import PropertyCheck, Skip, hx, unhx
 from common.world import World, make_context
 from mitmproxy import connection
 from mitmproxy.http import HTTPFlow, Request, Response
@@ -55,7 +55,11 @@ class Peer:
             return bytes(fp._serialize_frame(Opcode.CLOSE, p))
         op = {"t": Opcode.TEXT, "b": Opcode.BINARY, "c": Opcode.CONTINUATION, "pi": Opcode.PING, "po": Opcode.PONG}[t]
         fin = bool(f.get("fin", 1)) if t in ("t", "b", "c") else True
-        return bytes(fp._serialize_frame(op, p, fin))
+        try:
+            return bytes(fp._serialize_frame(op, p, fin))
+        except AssertionError:
+            # wsproto's deflate compressor refuses to serialise a stray CONTINUATION frame: not expressible
+            raise Skip()
 
     def decode(self, data):
         self.conn.receive_data(data)
@@ -302,7 +306,7 @@ class Check(PropertyCheck):
             "addon policy per message keep/same-length edit/length-changing edit/drop. distinct = distinct case; non-trivial = "
             "at least one frame/fragment.")
     budget = {"quick": 5200, "thorough": 205000}
-    time_budget = {"quick": 22, "thorough": 600}
+    time_budget = {"quick": 15, "thorough": 600}
     fingerprints = ["mitmproxy.proxy.layers.websocket:Fragmentizer.__call__", "mitmproxy.proxy.layers.websocket:Fragmentizer.cut",
                     "mitmproxy.proxy.layers.websocket:Fragmentizer.msg", "mitmproxy.proxy.layers.websocket:Fragmentizer.__init__",
                     "mitmproxy.proxy.layers.websocket:WebsocketLayer.relay_messages", "mitmproxy.proxy.layers.websocket:WebsocketLayer.start",
@@ -311,10 +315,12 @@ class Check(PropertyCheck):
     trusted_base = ["wsproto 1.3 frame codec / permessage-deflate / incremental UTF-8 decoder (model parameter; exercised by the in-memory peers)",
                     "CPython bytes.decode('utf-8', 'replace') as the primitive the `san` automaton transcribes (tied differentially)"]
     parallel = True
+    _bigp = 0.05
 
     def setup(self, tier):
         # quick tier: the fork pool costs more (pickling multi-kB payloads) than it saves
         self.parallel = tier == "thorough"
+        self._bigp = 0.1 if tier == "thorough" else 0.05   # share of multi-kB payloads (x3)
 
     # ---- T: constant regenerated from the live class -------------------------------------------
     def translate(self):
@@ -345,8 +351,9 @@ class Check(PropertyCheck):
         r = rng.random()
         if r < 0.45: n = rng.randint(0, 40)
         elif r < 0.7: n = rng.randint(0, 600)
-        elif r < 0.9: n = rng.pick([FS - 3, FS - 1, FS, FS + 1, FS + 2, 2 * FS - 1, 2 * FS, 2 * FS + 3, 3 * FS, 3 * FS + 3])
-        else: n = rng.randint(FS - 5, 3 * FS + 3)
+        elif r < 0.7 + 2 * self._bigp: n = rng.pick([FS - 3, FS - 1, FS, FS + 1, FS + 2, 2 * FS - 1, 2 * FS, 2 * FS + 3, 3 * FS, 3 * FS + 3])
+        elif r < 0.7 + 3 * self._bigp: n = rng.randint(FS - 5, 3 * FS + 3)
+        else: n = rng.randint(0, 80)
         if not text:
             return bytes(rng.pick(SOUP) if rng.chance(0.5) else rng.getrandbits(8) for _ in range(min(n, 300))) + b"\xc3" * max(0, n - 300)
         str_offsets = [k * FS for k in range(1, 4)]
